@@ -1203,9 +1203,13 @@ pub mod implementations {
             bail!("load requires a name")
         };
 
-        let var = if let Some(var) = ctx.load_variable(name) {
+        // lexical order: the function's own variables, then the variables it captured, and only then the rest of
+        // the call stack -- a caller's local with the same name must not hide a captured variable
+        let var = if let Ok(var) = ctx.load_local(name) {
             var
         } else if let Ok(var) = ctx.load_callback_variable(name) {
+            var
+        } else if let Some(var) = ctx.load_variable(name) {
             var
         } else {
             bail!("load before store (`{name}` not in scope)")
